@@ -801,9 +801,9 @@ def check(run, only_cases=None):
     try:
         cr = CaseRunner(run, scratch)
         quick = run.tier == 'quick'
-        n_rand = 160 if quick else 900
-        n_l1 = 400 if quick else 2500
-        n_l3 = 150 if quick else 800
+        n_rand = 600 if quick else 3000
+        n_l1 = 1500 if quick else 8000
+        n_l3 = 300 if quick else 1500
         cases = []
         if only_cases is not None:
             cases = [('replay', c) for c in only_cases]
